@@ -269,6 +269,8 @@ def apply_event(tt_mod, objs, ev):
         return res_or_self(r)
     if op == 'Transpose':
         kw = {} if ev['all'] else {'cores': sorted(ev['cores'])}
+        if kw:
+            A.copy().transpose(conjugate=ev['conj'], **kw)        # the caller's list object is used twice (see _twice)
         return res_or_self(A.transpose(conjugate=ev['conj'], overwrite=ow, **kw))
     if op == 'Conj':
         return res_or_self(A.conj(overwrite=ow))
@@ -306,7 +308,9 @@ def apply_event(tt_mod, objs, ev):
     if op == 'RankTranspose':
         return res_or_self(A.rank_transpose(overwrite=ow))
     if op == 'Diag':
-        return res_or_self(A.diag(sorted(ev['list'])))
+        lst = sorted(ev['list'])
+        A.copy().diag(lst)                                          # list argument used twice
+        return res_or_self(A.diag(lst))
     if op == 'Squeeze':
         return res_or_self(A.squeeze())
     if op == 'OrthoLeft':
@@ -366,7 +370,9 @@ def apply_event(tt_mod, objs, ev):
     if op == 'Reject':
         return reject_event(tt_mod, A, B, ev)
     if op == 'TT2QTT':
-        return res_or_self(A.tt2qtt([list(x) for x in ev['rds']], [list(x) for x in ev['cds']]))
+        rds, cds = [list(x) for x in ev['rds']], [list(x) for x in ev['cds']]
+        A.copy().tt2qtt(rds, cds)                                   # list arguments used twice: a call must not consume them
+        return res_or_self(A.tt2qtt(rds, cds))
     if op == 'BuildCore':
         def blk(b, vec):
             if b['z']:
@@ -384,7 +390,9 @@ def apply_event(tt_mod, objs, ev):
             raise Mismatch('type', 'build_core did not return a 4-way array')
         return [TT([core])]
     if op == 'QTT2TT':
-        return res_or_self(A.qtt2tt(list(ev['nums'])))
+        nums = list(ev['nums'])
+        A.copy().qtt2tt(nums)                                       # list argument used twice
+        return res_or_self(A.qtt2tt(nums))
     raise KeyError(op)
 
 
